@@ -385,7 +385,7 @@ func runDiff(s DiffScript, v *vt.V) {
 	}
 	// listings from any start point, each Seq value iterated twice (a Seq is re-iterable and must
 	// list the same names every time)
-	for _, start := range append([]string{"", "a", "b", "f", "x", "x/y", "zz", p}, u.Repos...) {
+	for _, start := range append([]string{"", "a", "b", "f", "x", "x/y", "zz", p, "x/", "x//", "x/.", "x/../y", "./x", "e/", "fooey/../a", "a/"}, u.Repos...) {
 		want, _ := ociregistry.All(memB.Repositories(ctx, start))
 		seq := view.Repositories(ctx, start)
 		for round := 1; round <= 2; round++ {
@@ -472,7 +472,7 @@ func genDiff(t *rapid.T) DiffScript {
 var propDiff = &vt.Prop[DiffScript]{
 	ID:   "C13",
 	Name: "SubVsRestrictedRegistry",
-	Rule: "the same generated history (<= 30 ops, all Interface and BlobWriter methods, both tag modes, listings with start points) is applied to Sub(ocimem, prefix) (a quarter of the time built as a view of a view) and to a second ocimem that plays the restricted registry; the universe holds 3 valid names plus names that try to leave the prefix ('../other', 'x/../../other', '..', '../<prefix>ey/x') and malformed ones; the underlying registry also holds siblings outside the prefix (other, <prefix>ey/x, <prefix>, <prefix>-tools, zz) with a secret blob, a tagged manifest and copies of the universe's blobs; oracle = every outcome equal on both sides (codes, descriptors, bytes, listings from any start point), no read ever returns the outside content, repository listings from a set of start points (each Seq iterated twice) equal the restricted registry's, and everything outside the prefix is unchanged afterwards (also after explicit climbing probes that read, delete and overwrite); distinct = (prefix, names, op-kind sequence)",
+	Rule: "the same generated history (<= 30 ops, all Interface and BlobWriter methods, both tag modes, listings with start points) is applied to Sub(ocimem, prefix) (a quarter of the time built as a view of a view) and to a second ocimem that plays the restricted registry; the universe holds 3 valid names plus names that try to leave the prefix ('../other', 'x/../../other', '..', '../<prefix>ey/x') and malformed ones; the underlying registry also holds siblings outside the prefix (other, <prefix>ey/x, <prefix>, <prefix>-tools, zz) with a secret blob, a tagged manifest and copies of the universe's blobs; oracle = every outcome equal on both sides (codes, descriptors, bytes, listings from any start point), no read ever returns the outside content, repository listings from a set of start points incl. unclean paths (each Seq iterated twice) equal the restricted registry's, and everything outside the prefix is unchanged afterwards (also after explicit climbing probes that read, delete and overwrite); distinct = (prefix, names, op-kind sequence)",
 	Gen:  genDiff,
 	Run:  runDiff,
 }
